@@ -3,6 +3,7 @@
  * 'frame' is 1 when a refused call changed the struct or any octet of the block (R5).
  */
 #include <stdio.h>
+#include <sys/mman.h>
 #include <stdlib.h>
 #include <string.h>
 
@@ -81,6 +82,23 @@ void adapter_exec(Ev *ev)
         /* size_t overflow probe: length SIZE_MAX - a1 with a 1-octet source. Must be refused. */
         unsigned char one = 0;
         rc = byte_buffer_add(&bb, &one, (size_t)-1 - (size_t)ev->a[0]);
+    } else if (ev_is(ev, "bigadd")) {
+        /* bigadd u n: a buffer of 4 GiB + 16 octets (address space only, never touched beyond its first page) with u octets filled:
+         * adding n more must succeed however much room there is.  Observation: rc, octets added, copied correctly (stateless probe) */
+        size_t sz = ((size_t)1 << 32) + 16, u = (size_t)ev->a[0], n = (size_t)ev->a[1];
+        unsigned char *p = mmap(NULL, sz, PROT_READ | PROT_WRITE, MAP_PRIVATE | MAP_ANONYMOUS | MAP_NORESERVE, -1, 0);
+        if (p == MAP_FAILED) { obs(ev, 0); obs(ev, (long long)n); obs(ev, 1); free(snap); return; }     /* no such address space here: nothing to probe */
+        ByteBuffer big;
+        unsigned char srcb[64];
+        for (size_t i = 0; i < n && i < sizeof srcb; i++) srcb[i] = (unsigned char)(i + 1);
+        long long r0 = byte_buffer_set(&big, p, sz, u, 0);
+        long long r1 = byte_buffer_add(&big, srcb, n);
+        obs(ev, r0 < 0 ? -2 : (r1 < 0 ? -1 : 0));
+        obs(ev, (long long)(big.used - u));
+        obs(ev, memcmp(p + u, srcb, n) == 0 && byte_buffer_avail(&big) == sz - u - n);
+        munmap(p, sz);
+        free(snap);
+        return;
     } else if (ev_is(ev, "consumehuge")) {
         /* size_t overflow probe: request SIZE_MAX - a1 octets into a 1-octet destination. Must be refused. */
         outn = 1;
